@@ -87,6 +87,9 @@ def role_of_insert(cb, ins):
     b = cb.b
     if ins in [x[0] for x in cb.ev_inserts]:
         return 'eventually-terminal'
+    if getattr(cb, 'merged', False) and b.dominates(cb.prop_loop.bb, ins.bb):
+        vs = [v for v in ('Always', 'Sometimes', 'Eventually') if ins.bb in cb.cell(v)]
+        return '+'.join(vs) if vs else 'other'
     for v in ('Always', 'Sometimes', 'Eventually'):
         for e in cb.arm_edges(v):
             if b.edges_dominate([e], ins.bb):
